@@ -1,4 +1,5 @@
 import Driver.Util
+import Driver.DS.Tread
 /-! package `DS` (see CONVENTIONS.md): register components in `step`.
 `cfg` lines this package cares about may be matched here too (they must answer "ok");
 every package sees every `cfg` line. -/
@@ -7,10 +8,14 @@ open Driver
 
 structure St where
   debug : Bool := true
+  tread : Tread.St := {}
 
 /-- `none` = not a component of this package. -/
 def step (st : St) (toks : List String) : Option (St × String) :=
   match toks with
+  | "tread" :: args =>
+    let (t, o) := Tread.step st.debug st.tread args
+    some ({ st with tread := t }, o)
   | _ => none
 
 /-- `cfg` lines are broadcast to every package. -/
